@@ -63,6 +63,8 @@ def gen(r, tier, i):
             elif k < 0.8:
                 p['cond'] = {'seq': [r.random() < 0.5 for _ in range(r.randint(2, 6))]}
             p['toggle'] = r.choice([0, 0, 1, 2, 3])
+        if pid == 0 and r.random() < 0.15:
+            p['tvar'] = True       # the model has an emitted root-level variable of its own called 'time'
         procs.append(p)
     calls = sched.gen_calls(r, 'dyadic' if grid == 'dyadic' else 'decimal', gprec, maxcalls=6,
                             end_with_update=r.random() < 0.5, zero=True)
